@@ -11,7 +11,14 @@ def main():
     sel = lambda c: "C09" in c or c.startswith("DFState.transition") or c in ("DFA.append_after", "CaseNode._merge", "OptionalNode.convert", "LoopNode.convert")
     rep, outs = R.run_contracts("C09", sel, ["DFA.append_after", "CaseNode._merge", "DFState.transition", "OptionalNode.convert", "LoopNode.convert"], ["dfa", "merge"], "all", TEXT,
                                 ["DFA.append_after", "CaseNode._merge", "DFState.transition", "OptionalNode.convert", "LoopNode.convert"])
-    return R.finish(rep, TEXT, "C09")
+    # proved parts: refusal logic of the case merge for all priorities (pyvc + z3); literal inner machines hand over only error transitions
+    from . import merge_proofs
+    merge_proofs.run(rep, "C09")
+    return R.finish(rep, TEXT + TEXT2, "C09")
+
+
+TEXT2 = (" Proved (pyvc on the real AST of CaseNode._merge.create_real_state_of, merged states of up to 3 clauses, every acceptance pattern, greedy and not, symbolic priorities): a merge in which two clauses finish, or one finishes "
+         "while another continues, is refused unless the case is greedy; a greedy merge is refused exactly when no finishing clause has the strictly highest priority, and otherwise the owner has it (z3).")
 
 
 def replay(path):
